@@ -13,6 +13,27 @@ Theorem c06_shownet_layout :
 Proof. reflexivity. Qed.
 Print Assumptions c06_shownet_layout.
 
+(* every constant the shownet model takes from the repository (sizeof / offsetof of the packed wire structs, opcodes,
+   vectors, masks), regenerated into GenShowNet.v on each run, pinned to the value the proofs and statements were written
+   for: a change of the wire layout or of a constant in /repo breaks this obligation deterministically *)
+Theorem c06_shownet_consts :
+  SN_PACKET_SIZE = 1316 /\
+  SN_HEADER_SIZE = 6 /\
+  SN_COMPRESSED_SIZE = 1310 /\
+  SN_COMPRESSED_DATA_LENGTH = 1269 /\
+  SN_OFF_type = 0 /\
+  SN_OFF_netSlot = 0 /\
+  SN_OFF_slotSize = 8 /\
+  SN_OFF_indexBlock = 16 /\
+  SN_OFF_data = 41 /\
+  SN_MAGIC_INDEX_OFFSET = 11 /\
+  SN_COMPRESSED_DMX_PACKET = 32911 /\
+  SN_PTR_SIZE = 8 /\
+  DMX_UNIVERSE_SIZE = 512 /\
+  REPEAT_FLAG = 128.
+Proof. repeat split; reflexivity. Qed.
+Print Assumptions c06_shownet_consts.
+
 Theorem c06_shownet_terminates : forall buf n st,
   bytes_ok buf = true -> run buf (shownet_handle n st) <> Hazard OutOfFuel.
 Proof. intros buf n st Hb E. pose proof (nofail_run _ (shownet_nofail n st) buf _ Hb E). discriminate. Qed.
@@ -25,6 +46,18 @@ Proof.
   intros E. pose proof (nofail_run _ (shownet_nofail n st) buf _ Hb E). discriminate.
 Qed.
 Print Assumptions c06_shownet_no_div0.
+
+(* "never fails to return", loop by loop.  RunLengthEncoder::Decode (ShowNet, SandNet): wherever it is pointed
+   (any base, any length < 2^32, any buffer) it ends within fuel = length + 1; measure: length - i, every turn
+   consumes at least the flag byte *)
+Theorem c06_rle_decode_returns : forall buf start base length b,
+  bytes_ok buf = true -> length < 4294967296 ->
+  run buf (rle_decode start base length b) <> Hazard OutOfFuel.
+Proof.
+  intros buf start base length b Hb Hl E.
+  pose proof (nofail_run _ (rle_decode_nofail start base length b Hl) buf _ Hb E) as H. discriminate H.
+Qed.
+Print Assumptions c06_rle_decode_returns.
 
 (* a full-size datagram whose raw block is data[1268..1270): one byte past the packet is read *)
 Definition sn_over : list N :=
@@ -113,6 +146,39 @@ Proof.
 Qed.
 Print Assumptions c06_shownet_proposedfix_stale_free.
 
+(* history level, for the code as it is: any sequence of datagrams each satisfying the state-independent syntactic
+   guard `sn_all` (sn_syn for a node that has a handler for the datagram's own universe), from any handler state,
+   with arbitrary stale tails: no hazard, and all outputs and the final state independent of the tails *)
+Theorem c06_shownet_history_partial : forall (h1 h2 : list (unit * list N * list N)) st,
+  Forall (fun x => let '(_, d, _) := x in bytes_ok d = true /\ len d <= 1316 /\ sn_all d = true) h1 ->
+  Forall2 (fun x y => fst x = fst y) h1 h2 ->
+  run_hist sn_step sn_next st h1 = run_hist sn_step sn_next st h2 /\
+  exists r, run_hist sn_step sn_next st h1 = Done r.
+Proof.
+  intros h1 h2 st Hok H2. apply hist_within_stale_free; [exact H2|].
+  assert (E : map fst h1 = map (fun d => (tt, d)) (map (fun x => snd (fst x)) h1)).
+  { rewrite map_map. apply map_ext. intros [[[] d] t]. reflexivity. }
+  rewrite E. apply sn_hist_within. apply Forall_map.
+  eapply Forall_impl; [|exact Hok]. intros [[[] d] t] H. exact H.
+Qed.
+Print Assumptions c06_shownet_history_partial.
+
+(* and with the proposed fix: every history *)
+Theorem c06_shownet_proposedfix_history : forall (h1 h2 : list (unit * list N * list N)) st,
+  Forall (fun x => let '(_, d, t) := x in bytes_ok d = true /\ bytes_ok t = true /\ len d <= 1316) h1 ->
+  Forall2 (fun x y => fst x = fst y) h1 h2 ->
+  (exists r, run_hist (fun (_ : unit) n s => shownet_handle_fixed n s) sn_next st h1 = Done r) /\
+  run_hist (fun (_ : unit) n s => shownet_handle_fixed n s) sn_next st h1 = run_hist (fun (_ : unit) n s => shownet_handle_fixed n s) sn_next st h2.
+Proof.
+  intros h1 h2 st Hok H2.
+  assert (Hb : forall (i : unit) n s, n <= SN_PACKET_SIZE -> bounded n (shownet_handle_fixed n s))
+    by (intros; apply shownet_fixed_bounded; assumption).
+  split.
+  - apply (hist_safe SN_PACKET_SIZE _ _ Hb). exact Hok.
+  - apply (hist_stale_free SN_PACKET_SIZE _ _ Hb); assumption.
+Qed.
+Print Assumptions c06_shownet_proposedfix_history.
+
 (* the guard is satisfiable by an accepted datagram; the two witnesses are outside it *)
 Definition sn_good : list N :=
   [128; 143; 10; 0; 0; 2] ++ [1; 0] ++ repeat 0 6 ++ [4; 0] ++ repeat 0 6 ++ [11; 0; 13; 0] ++ repeat 0 6
@@ -124,6 +190,20 @@ Example ex_shownet_handled :
 Proof. vm_compute. split; reflexivity. Qed.
 Example ex_shownet_outside : sn_within sn_short [(0, None)] = false /\ sn_within sn_over [(0, None)] = false.
 Proof. vm_compute. split; reflexivity. Qed.
+Example ex_shownet_all : sn_all sn_good = true /\ sn_all sn_short = false.
+Proof. vm_compute. split; reflexivity. Qed.
 Example ex_shownet_syn : sn_syn sn_good [(0, None)] = true /\ sn_syn sn_short [(0, None)] = false /\
   sn_hdr sn_short [(0, None)] = true /\ sn_syn sn_over [(0, None)] = false.
 Proof. vm_compute. repeat split; reflexivity. Qed.
+
+(* a two-datagram history inside the guard: both accepted, the second overwrites slot 0-2 again; stale tails differ *)
+Example ex_shownet_history :
+  Forall (fun x => let '(_, d, _) := x in bytes_ok d = true /\ len d <= 1316 /\ sn_all d = true)
+         [(tt, sn_good, repeat 0 1267); (tt, sn_good, repeat 165 1267)] /\
+  run_hist sn_step sn_next [(0, None)] [(tt, sn_good, repeat 0 1267); (tt, sn_good, repeat 165 1267)]
+  = Done ([(0, Some ([9; 9; 9] ++ repeat 0 509))],
+          [([(0, Some ([9; 9; 9] ++ repeat 0 509))], Some 0); ([(0, Some ([9; 9; 9] ++ repeat 0 509))], Some 0)]).
+Proof.
+  split; [|vm_compute; reflexivity].
+  repeat (apply Forall_cons; [vm_compute; repeat split; try reflexivity; discriminate|]). apply Forall_nil.
+Qed.
